@@ -17,7 +17,7 @@ import sys, os, json, time, importlib, hashlib, traceback, signal, subprocess, c
 
 VERIF = os.path.dirname(os.path.dirname(os.path.dirname(os.path.abspath(__file__))))
 REPO = os.environ.get('MOFUN_VERIF_REPO', '/repo')
-SCENARIO_TIMEOUT = float(os.environ.get('VERIF_SCENARIO_TIMEOUT', '120'))
+SCENARIO_TIMEOUT = float(os.environ.get('VERIF_SCENARIO_TIMEOUT', '900'))
 MAX_REPLAYS_PER_CLAUSE = 5
 MAX_VIOLATIONS_KEPT = 400
 
@@ -43,8 +43,8 @@ class _Null:
     def isatty(self): return False
 
 
-class ScenarioTimeout(Exception):
-    pass
+class ScenarioTimeout(BaseException):
+    """watchdog; a BaseException so that no `except Exception` in the checks or in mofun can swallow it"""
 
 
 def _alarm(signum, frame):
@@ -101,14 +101,14 @@ def merge(total, r):
 def run_one(mod, sc, ctx):
     """run one scenario under the watchdog; exceptions escaping the *check* are harness errors,
     exceptions escaping mofun are turned into violations by the check itself"""
-    signal.setitimer(signal.ITIMER_REAL, SCENARIO_TIMEOUT)
+    signal.setitimer(signal.ITIMER_REAL, float(ctx.get('timeout') or SCENARIO_TIMEOUT))
     if os.environ.get('VERIF_TRACE'):
         open('/tmp/verif-trace-%d' % os.getpid(), 'w').write(repr(sc))
     try:
         return mod.run(sc, ctx)
     except ScenarioTimeout:
         return dict(evals=1, violations=[dict(clause='no-result', sig='timeout', scenario=sc,
-                    msg='scenario did not finish within %.0fs' % SCENARIO_TIMEOUT)])
+                    msg='scenario did not finish within %.0fs' % float(ctx.get('timeout') or SCENARIO_TIMEOUT))])
     finally:
         signal.setitimer(signal.ITIMER_REAL, 0)
 
@@ -233,6 +233,7 @@ def main(argv):
     ctx = dict(tier=tier, seed=seed, replay=False)
     plan = mod.plan(tier, seed)
     scenarios = plan['scenarios']
+    ctx['timeout'] = plan.get('timeout')
     nproc = int(os.environ.get('VERIF_WORKERS', str(os.cpu_count() or 4)))
     chunk = max(1, min(plan.get('chunk', 64), (len(scenarios) + nproc * 4 - 1) // (nproc * 4)))
     chunks = [scenarios[i:i + chunk] for i in range(0, len(scenarios), chunk)]
